@@ -20,7 +20,9 @@ CONFIG = dict(
           "is recorded.  Oracle: an explicit lifecycle model with a stack of saved states - a path the model "
           "says is protected must raise and leave the sink log empty; after leaving a context the identity "
           "tuple and the behaviour tuple equal those recorded at entry; after remove with no context open the "
-          "four bindings are the originals captured before fickling was imported.  A case is one distinct "
+          "four bindings are the originals captured before fickling was imported.  Separately, under each arming, an "
+          "accepted benign pickle is followed by its byte-for-byte twin that differs only in one module name (10 to "
+          "20000 attributes, protocols 2 and 4).  A case is one distinct "
           "history; non-trivial = it contains a context entry or >= 2 arming operations."),
     assumptions=[
         "documented protection: global check and context manager protect pickle.load; the ML environment protects all four",
@@ -30,7 +32,7 @@ CONFIG = dict(
     min_nontrivial={"quick": 3000, "thorough": 100000},
     nshards={"quick": 16, "thorough": 16},
     timeout={"quick": 900, "thorough": 7200},
-    required_counters=("steps", "probes", "context_exits_compared", "removals_checked"),
+    required_counters=("steps", "probes", "twin_probes", "context_exits_compared", "removals_checked"),
 )
 
 OPS = ["arm", "ml", "ml+", "remove", "enter", "leave", "leave_exc"]
@@ -270,7 +272,85 @@ def run_shard(ctx):
         run_history(ctx, mods, hist)
     for d in (["enter", "ml", "leave"], ["ml", "enter", "remove", "leave"], ["arm", "enter", "enter", "leave_exc", "leave", "remove"]):
         run_history(ctx, mods, d)
+    twin_histories(ctx, mods)
+
+
+def twin_histories(ctx, mods):
+    """A benign pickle that is accepted, then its byte-for-byte twin that differs only in the module a class
+    comes from (argparse.Namespace / vp_other.Namespace) - small and tens of thousands of opcodes, protocols
+    2 and 4: whatever the first load left behind (a remembered verdict ...) must not let the second one run."""
+    import argparse
+    import vp_sink
+    fickling, hook, loader, U = mods
+    agg = ctx.agg
+    sizes = {"quick": (10, 1200, 6000), "thorough": (10, 700, 1200, 6000, 20000)}[ctx.tier]
+    idx = 0
+    for n in sizes:
+        for proto in (2, 4):
+            benign = pickle.dumps(argparse.Namespace(**{f"k{i}": float(i) for i in range(n)}), proto)
+            flagged = benign.replace(b"argparse", b"vp_other")
+            if flagged == benign or len(flagged) != len(benign):
+                agg.inconclusive.append("harness: twin construction failed")
+                continue
+            for arming in ("arm", "context", "nested-context", "ml", "arm+context"):
+                idx += 1
+                if idx % ctx.nshards != ctx.shard:
+                    continue
+                key = h(f"twin|{n}|{proto}|{arming}".encode())
+                agg.case(key, True, {"history": ["twin", arming], "attrs": n, "protocol": proto})
+                cms = []
+                w = {"history": ["twin", arming, f"attrs={n}", f"protocol={proto}"]}
+                try:
+                    if arming in ("arm", "arm+context"):
+                        fickling.always_check_safety()
+                    if arming == "ml":
+                        hook.activate_safe_ml_environment()
+                    for _ in range({"context": 1, "nested-context": 2, "arm+context": 1}.get(arming, 0)):
+                        cm = fickling.check_safety()
+                        cm.__enter__()
+                        cms.append(cm)
+                    for rnd in range(2):
+                        del vp_sink.LOG[:]
+                        try:
+                            pickle.load(io.BytesIO(benign))
+                            agg.count("twin_benign_accepted")
+                        except Exception:
+                            agg.count("twin_benign_refused")
+                        del vp_sink.LOG[:]
+                        try:
+                            pickle.load(io.BytesIO(flagged))
+                            res = "returned"
+                        except U:
+                            res = "blocked"
+                        except Exception as e:
+                            chain, x = [], e
+                            while x is not None and len(chain) < 5:
+                                chain.append(x)
+                                x = x.__cause__ or x.__context__
+                            res = "blocked" if any(isinstance(c, U) for c in chain) else f"other:{type(e).__name__}"
+                        agg.count("twin_probes")
+                        if vp_sink.LOG or res == "returned":
+                            agg.violation("unprotected-while-armed:pickle.load:after-benign-twin",
+                                          f"armed ({arming}): after a benign pickle was accepted, its twin that differs only in the "
+                                          f"module of one class ({n} attributes, protocol {proto}) {res} and ran {vp_sink.LOG[:1]}",
+                                          dict(w, round=rnd))
+                            break
+                finally:
+                    while cms:
+                        try:
+                            cms.pop().__exit__(None, None, None)
+                        except Exception:
+                            pass
+                    hook.remove_hook()
+                    pickle.load, pickle.loads, _pickle.load, _pickle.loads = ORIG
+                    del vp_sink.LOG[:]
 
 
 def replay(ctx, payload):
-    run_history(ctx, setup(), payload["case"]["history"])
+    hist = payload["case"]["history"]
+    if hist and hist[0] == "twin":
+        class _One:
+            tier, seed, shard, nshards, agg = ctx.tier, ctx.seed, 0, 1, ctx.agg
+        twin_histories(_One, setup())
+        return
+    run_history(ctx, setup(), hist)
